@@ -20,8 +20,11 @@ import (
 	"fmt"
 	"io"
 	"math"
+	"sort"
 	"strconv"
 	"strings"
+
+	"golang.org/x/exp/maps"
 )
 
 // Write writes the metrics to the given writer in AFM format.
@@ -107,8 +110,10 @@ func (m *Metrics) Write(w io.Writer) error {
 		ury := int(math.Ceil(g.BBox.URy))
 		line := fmt.Sprintf("C %d ; WX %.0f ; N %s ; B %d %d %d %d ;",
 			charCode, g.WidthX, name, llx, lly, urx, ury)
-		for succ, lig := range g.Ligatures {
-			line += fmt.Sprintf(" L %s %s ;", succ, lig)
+		succs := maps.Keys(g.Ligatures)
+		sort.Strings(succs)
+		for _, succ := range succs {
+			line += fmt.Sprintf(" L %s %s ;", succ, g.Ligatures[succ])
 		}
 		if err := write("%s", line); err != nil {
 			return err
